@@ -1654,7 +1654,10 @@ impl FunctionCompiler<'_> {
                                 self.tys[self.loc].meta_ty(ty).unwrap()
                             }
                             hir::ArmVariant::Shorthand(name) => {
-                                let Ty::Enum { ref variants, .. } = *sum_ty else {
+                                // a distinct enum has the variants of its inner enum
+                                let Ty::Enum { ref variants, .. } =
+                                    *sum_ty.absolute_ty_keep_variants()
+                                else {
                                     unreachable!()
                                 };
 
